@@ -175,7 +175,8 @@ theorem u2f_core (env : Prog.Env) (o : AttObj) (h : Bytes) (res : Result)
     (hr : Prog.run env (verifyU2F o h) = some res) :
     ∃ der c d acd alg crv x y, Prog.run env (unmarshalCertificates o.stmt) = .ok [(der, c)] ∧ res = ⟨"Unknown", [der]⟩ ∧
       attestedAuthData o = some (d, acd) ∧ credentialKey acd = some (.ec2 alg crv x y) ∧
-      X509Sig.Checked env der c.key (Cose.algX509 alg) (u2fMessage d.rpIdHash h acd.credentialId x y) (getSignature o.stmt) := by
+      X509Sig.Checked env der c.key (Cose.algX509 alg) (u2fMessage d.rpIdHash h acd.credentialId x y) (getSignature o.stmt) ∧
+      u2fCoordinatesFit crv x y = true := by
   unfold verifyU2F at hr
   simp only [Prog.run_bind] at hr
   split at hr
@@ -188,9 +189,13 @@ theorem u2f_core (env : Prog.Env) (o : AttObj) (h : Bytes) (res : Result)
         · rename_i alg crv x y hk
           simp only [Prog.run_bind, Prog.run_pure, run_ite] at hr
           split at hr
-          · rename_i hb
-            exact ⟨der, c, d, acd, alg, crv, x, y, hc, by simpa using hr.symm, hd, hk, (X509SigLemmas.run_certCheckSig ..).1 hb⟩
           · simp at hr
+          · rename_i hf
+            split at hr
+            · rename_i hb
+              exact ⟨der, c, d, acd, alg, crv, x, y, hc, by simpa using hr.symm, hd, hk,
+                (X509SigLemmas.run_certCheckSig ..).1 hb, by simpa using hf⟩
+            · simp at hr
         · simp at hr
     · simp at hr
   · simp at hr
@@ -459,7 +464,7 @@ theorem u2f_binding (env : Prog.Env) (o : AttObj) (h : Bytes) (res : Result)
     ∃ der c d acd alg crv x y, res.x5c = [der] ∧ env.answer (.x509Parse der) = .cert c ∧
       attestedAuthData o = some (d, acd) ∧ credentialKey acd = some (.ec2 alg crv x y) ∧
       X509Sig.Checked env der c.key (Cose.algX509 alg) (u2fMessage d.rpIdHash h acd.credentialId x y) (getSignature o.stmt) := by
-  obtain ⟨der, c, d, acd, alg, crv, x, y, hc, rfl, h1, h2, h3⟩ := u2f_core env o h res hr
+  obtain ⟨der, c, d, acd, alg, crv, x, y, hc, rfl, h1, h2, h3, -⟩ := u2f_core env o h res hr
   exact ⟨der, c, d, acd, alg, crv, x, y, rfl, certs_parsed env _ _ hc (der, c) (List.mem_cons_self ..), h1, h2, h3⟩
 
 theorem androidKey_binding (env : Prog.Env) (o : AttObj) (h : Bytes) (res : Result)
@@ -699,8 +704,8 @@ theorem u2f_binds (env : Prog.Env) (hb : SigBinds env) (o o' : AttObj) (h h' : B
       attestedAuthData o' = some (d', acd') ∧ credentialKey acd' = some (.ec2 alg' crv' x' y') ∧
       (Cose.algX509 alg = Cose.algX509 alg' →
         d.rpIdHash = d'.rpIdHash ∧ h = h' ∧ acd.credentialId = acd'.credentialId ∧ coord32 x = coord32 x' ∧ coord32 y = coord32 y') := by
-  obtain ⟨der, c, d, acd, alg, crv, x, y, hc, -, h1, h2, h3⟩ := u2f_core env o h res hr
-  obtain ⟨der', c', d', acd', alg', crv', x', y', hc', -, h1', h2', h3'⟩ := u2f_core env o' h' res' hr'
+  obtain ⟨der, c, d, acd, alg, crv, x, y, hc, -, h1, h2, h3, -⟩ := u2f_core env o h res hr
+  obtain ⟨der', c', d', acd', alg', crv', x', y', hc', -, h1', h2', h3', -⟩ := u2f_core env o' h' res' hr'
   rw [hs] at hc' h3'
   have ec := hc.symm.trans hc'
   simp only [Certs.ok.injEq, List.cons.injEq, Prod.mk.injEq] at ec
@@ -709,6 +714,65 @@ theorem u2f_binds (env : Prog.Env) (hb : SigBinds env) (o o' : AttObj) (h h' : B
   rw [← ha] at h3'
   exact u2fMessage_inj _ _ _ _ _ _ _ _ _ _
     ((attested_rpIdHash_length _ _ _ h1).trans (attested_rpIdHash_length _ _ _ h1').symm) hl (X509SigLemmas.checked_binds hb h3 h3')
+
+
+theorem stripZeros_idem (b : Bytes) : Bytes.stripZeros (Bytes.stripZeros b) = Bytes.stripZeros b := by
+  induction b with
+  | nil => rfl
+  | cons a l ih =>
+    by_cases ha : a = 0
+    · simp only [Bytes.stripZeros, ha, if_true]; exact ih
+    · simp only [Bytes.stripZeros, ha, if_false]
+
+theorem stripZeros_replicate_append (n : Nat) (m : Bytes) :
+    Bytes.stripZeros (List.replicate n 0 ++ m) = Bytes.stripZeros m := by
+  induction n with
+  | zero => simp
+  | succ k ih => simp only [List.replicate_succ, List.cons_append, Bytes.stripZeros, if_true]; exact ih
+
+/-- a coordinate that fits 32 bytes: its 32-byte form is the left-padded magnitude, and stripping the padding gives the magnitude back -/
+theorem stripZeros_coord32_of_fit (b : Bytes) (hb : (Bytes.stripZeros b).length ≤ 32) :
+    Bytes.stripZeros (coord32 b) = Bytes.stripZeros b := by
+  unfold coord32
+  simp only
+  split
+  · rw [List.take_of_length_le hb]; exact stripZeros_idem b
+  · rw [stripZeros_replicate_append]; exact stripZeros_idem b
+
+/-- a coordinate that fits 32 bytes is recovered from its 32-byte form: equal forms, equal numbers -/
+theorem coord32_inj_of_fit (x x' : Bytes) (hx : (Bytes.stripZeros x).length ≤ 32) (hx' : (Bytes.stripZeros x').length ≤ 32)
+    (h : coord32 x = coord32 x') : Bytes.stripZeros x = Bytes.stripZeros x' := by
+  rw [← stripZeros_coord32_of_fit x hx, ← stripZeros_coord32_of_fit x' hx', h]
+
+open Spec.Att in
+/-- fido-u2f, as the property states it: under `SigBinds`, two accepted statements with the same statement map and the same signature
+    algorithm have the same RP ID hash, client-data hash, credential id AND THE SAME PUBLIC-KEY POINT (the coordinates as numbers) —
+    the point the relying party stores is the one the attestation key vouched for.  (Before the repair of D15 only the leading 32
+    bytes of each coordinate were bound.) -/
+theorem u2f_binds_point (env : Prog.Env) (hb : SigBinds env) (o o' : AttObj) (h h' : Bytes) (res res' : Result)
+    (hs : o'.stmt = o.stmt) (hl : h.length = h'.length)
+    (hr : Prog.run env (verifyU2F o h) = some res) (hr' : Prog.run env (verifyU2F o' h') = some res') :
+    ∃ d acd alg crv x y d' acd' alg' crv' x' y',
+      attestedAuthData o = some (d, acd) ∧ credentialKey acd = some (.ec2 alg crv x y) ∧
+      attestedAuthData o' = some (d', acd') ∧ credentialKey acd' = some (.ec2 alg' crv' x' y') ∧
+      crv = 1 ∧ crv' = 1 ∧
+      (Cose.algX509 alg = Cose.algX509 alg' →
+        d.rpIdHash = d'.rpIdHash ∧ h = h' ∧ acd.credentialId = acd'.credentialId ∧
+        Bytes.stripZeros x = Bytes.stripZeros x' ∧ Bytes.stripZeros y = Bytes.stripZeros y') := by
+  obtain ⟨der, c, d, acd, alg, crv, x, y, hc, -, h1, h2, h3, hf⟩ := u2f_core env o h res hr
+  obtain ⟨der', c', d', acd', alg', crv', x', y', hc', -, h1', h2', h3', hf'⟩ := u2f_core env o' h' res' hr'
+  simp only [u2fCoordinatesFit, Bool.and_eq_true, decide_eq_true_eq] at hf hf'
+  obtain ⟨⟨hcrv, hx⟩, hy⟩ := hf
+  obtain ⟨⟨hcrv', hx'⟩, hy'⟩ := hf'
+  rw [hs] at hc' h3'
+  have ec := hc.symm.trans hc'
+  simp only [Certs.ok.injEq, List.cons.injEq, Prod.mk.injEq] at ec
+  obtain ⟨⟨rfl, rfl⟩, -⟩ := ec
+  refine ⟨d, acd, alg, crv, x, y, d', acd', alg', crv', x', y', h1, h2, h1', h2', hcrv, hcrv', fun ha => ?_⟩
+  rw [← ha] at h3'
+  obtain ⟨e1, e2, e3, e4, e5⟩ := u2fMessage_inj _ _ _ _ _ _ _ _ _ _
+    ((attested_rpIdHash_length _ _ _ h1).trans (attested_rpIdHash_length _ _ _ h1').symm) hl (X509SigLemmas.checked_binds hb h3 h3')
+  exact ⟨e1, e2, e3, coord32_inj_of_fit x x' hx hx' e4, coord32_inj_of_fit y y' hy hy' e5⟩
 
 /-! ### non-vacuity of the idealised hypotheses -/
 
